@@ -699,9 +699,17 @@ func ruleSGNames(c *Ctx) {
 	if !c.Anchor(sfs != nil && brc != nil, "schemaForStruct and the record codec builder") {
 		return
 	}
-	helper := func(fn *ssa.Function, resultKind types.BasicKind) map[*ssa.Function]*ssa.Call {
+	helper := func(fn0 *ssa.Function, resultKind types.BasicKind) map[*ssa.Function]*ssa.Call {
 		out := map[*ssa.Function]*ssa.Call{}
-		for _, cs := range callsIn(fn) {
+		group := []*ssa.Function{fn0}
+		if fn0 == brc {
+			group = recordBuilderGroup(P, brc)
+		}
+		var all []*CallSite
+		for _, g := range group {
+			all = append(all, callsIn(g)...)
+		}
+		for _, cs := range all {
 			if cs.Static == nil || !P.isModuleFunc(cs.Static) || cs.Value() == nil || len(cs.Static.Params) != 1 {
 				continue
 			}
@@ -751,7 +759,11 @@ func ruleSGNames(c *Ctx) {
 				call := helper(brc, k.kind)[shared]
 				nKey, nLook := 0, 0
 				okKey, okLook := true, true
-				for _, b := range brc.Blocks {
+				var grpBlocks []*ssa.BasicBlock
+				for _, g := range recordBuilderGroup(P, brc) {
+					grpBlocks = append(grpBlocks, g.Blocks...)
+				}
+				for _, b := range grpBlocks {
 					for _, in := range b.Instrs {
 						switch x := in.(type) {
 						case *ssa.MapUpdate:
